@@ -9,7 +9,7 @@ labelled tree. Checked per node:
      classifier of an open finding holds at that node, otherwise a VIOLATION;
   3. root has no parent, every answer is a walked node, == is an equivalence, typed Parent queries agree.
 """
-import json, os, random
+import json, os, random, time
 from .. import common
 from ..common import Result
 
@@ -355,14 +355,8 @@ def parse_tree(tok):
 
 
 def coq_term(tok):
-    toks = [tuple(int(x) for x in t.split(".")) for t in tok.split(" ")]
-    pos = [0]
-
-    def go():
-        k, l, n = toks[pos[0]]
-        pos[0] += 1
-        return "Node %d %d [%s]" % (k, l, "; ".join(go() for _ in range(n)))
-    return go()
+    """the flat token list as a Gallina list N (parsed into a tree inside the model: Arena.parse_tree)"""
+    return "[" + "; ".join(x for t in tok.split(" ") for x in t.split(".")) + "]%N"
 
 
 def under_unwrap_args(i, nodes, parent, child_idx):
@@ -378,8 +372,8 @@ def evaluate(text, impl_line, model_line_for, fx):
     """Returns (violations [(what, extra)], known {finding id: example}, stats dict). model_line_for(tok) -> model output."""
     ev = {"viol": [], "known": {}, "stats": {}}
     st = ev["stats"]
-    if impl_line == "REJECT":
-        st["status"] = "rejected"
+    if impl_line.startswith("REJECT"):
+        st["status"] = "rejected" if impl_line == "REJECT" else "rejected (parser panic)"
         return ev
     if not impl_line.startswith("OK\t"):
         st["status"] = "failed"
@@ -467,18 +461,23 @@ def detect_fx(drv, orc):
 
 def run(tier, seed):
     res = Result(PROP, tier, seed)
+    phases, t0 = {}, time.time()
+
+    def phase(name):
+        nonlocal t0
+        phases[name] = round(time.time() - t0, 1)
+        t0 = time.time()
     proved = common.prove(res, PROP, PROP_FILE, [EXTRACT])
+    phase("prove+audit")
     drv = common.build_harness("c20")
     orc = common.build_oracle("parent", ["parent_model"])
+    phase("build driver+oracle")
     rng = random.Random(seed)
     n_random = 2400 if tier == "quick" else 60000
     if not proved:
         n_random *= 3
     kfs = findings()
     fx, _ = detect_fx(drv, orc)
-
-    def model_for_factory(cache):
-        return lambda tok: cache[tok]
 
     def run_batch(texts):
         impl = common.run_tool(drv, ["P\t" + t.encode().hex() for t in texts])
@@ -500,10 +499,12 @@ def run(tier, seed):
         for what, extra in ev["viol"]:
             res.violation("witness %r: %s" % (text, what), dict(extra, cmd="P", text=text, fx=fx))
 
+    phase("witness replays")
     # --- 2. generated documents -----------------------------------------------------------------------------------
     docs = gen_docs(rng, n_random)
     texts = [d[1] for d in docs]
     impl, cache = run_batch(texts)
+    phase("run implementation and model")
     evaluations = node_evals = 0
     cls_hist, status_hist, kind_hist, coll_hist, size_hist = {}, {}, {}, {}, {}
     wrong_kinds, constructs_seen = {}, {}
@@ -564,21 +565,24 @@ def run(tier, seed):
     missing_kinds = [KIND_NAMES[k] for k in EXPECTED_KINDS if k not in kind_hist]
     if missing_kinds and len(ok_cases) > 500:
         res.violation("generator degenerate: node kinds never produced: %s" % ", ".join(missing_kinds), {"kind": "generator"}, no_input=True)
-    rej = status_hist.get("rejected", 0)
+    rej = status_hist.get("rejected", 0) + status_hist.get("rejected (parser panic)", 0)
     if evaluations and rej > 0.35 * evaluations:
         res.violation("generator degenerate: %d of %d documents rejected by the parser" % (rej, evaluations), {"kind": "generator"}, no_input=True)
 
+    phase("compare")
     # --- 3. vm_compute slice: the extracted oracle equals the model evaluated inside Coq -------------------------
-    small = [c for c in ok_cases if c[3] <= 120]
-    sl = rng.sample(small, min(130, len(small)))
+    small = [c for c in ok_cases if c[3] <= 60]      # printing long lists of N dominates the cost inside coqc
+    sl = rng.sample(small, min(120, len(small)))
     if sl:
-        vm = common.vm_compute_slice(PROP, PREAMBLE, ["answers %s (%s)" % ("true" if fx else "false", coq_term(c[1])) for c in sl])
+        vm = common.vm_compute_slice(PROP, PREAMBLE, ["answers_flat %s %s" % ("true" if fx else "false", coq_term(c[1])) for c in sl])
         bad = [(c[0], v, c[2]) for c, v in zip(sl, vm) if v != c[2]]
         if bad:
             res.violation("extracted oracle and vm_compute disagree on %r: %s vs %s" % bad[0], {"kind": "extraction", "case": bad[0]}, no_input=True)
+    phase("vm_compute slice")
     if not proved and not res.violations:
         res.violation(res.proof_broken, {"kind": "proof-obligation", "detail": res.proof_broken}, no_input=True)
     res.coverage.update({
+        "phase_seconds": phases,
         "evaluations": evaluations,
         "node_queries_compared": node_evals,
         "distinct_nontrivial": len(distinct),
@@ -630,7 +634,7 @@ def replay(path):
         tok = line.split("\t")[1]
         m = common.run_tool(orc, ["T\t%d\t%s" % (fx, tok)])[0]
         print("model :", m)
-        print("vm    :", common.vm_compute_slice(PROP, PREAMBLE, ["answers %s (%s)" % ("true" if fx else "false", coq_term(tok))])[0])
+        print("vm    :", common.vm_compute_slice(PROP, PREAMBLE, ["answers_flat %s %s" % ("true" if fx else "false", coq_term(tok))])[0])
         ev = evaluate(r["text"], line, lambda t: m, fx)
         for what, _ in ev["viol"]:
             print("VIOLATION:", what)
